@@ -87,28 +87,28 @@ PROPS = {
         note="All of this is under the ghost precondition good(k), listed as an assumption.",
         design_ref="DESIGN.md section 8 C06"),
     "C04": dict(level="proof", trusted=_COMMON_TRUST, assumptions=["A-PAIRING: the optimized ate pairing is bilinear and non-degenerate on G2 x G1 (assumed theorem; what is proved is that the suites call it only on valid subgroup points and how its values are combined)",
-                     "contract of hash_to_G2: a function of (message, tag) landing in the prime-order subgroup (C10 over A-ORDER)",
+                     "contract of hash_to_G2: a function of (message, tag) landing in the prime-order subgroup (C10; point counts forced by Hasse + computed facts, C17)",
                      "codec contracts (C11) and subgroup_check exactness (C17) are used at the call sites",
                      "A-PRIME: r prime"],
         text="KeyValidate, Verify, AggregateVerify (three suites), FastAggregateVerify and PopVerify are executed symbolically from the real source for ARBITRARY byte strings of ANY length and key/message lists of ANY length (loop invariants over the list index): every path ends in a boolean (no exception escapes: each raise is inside a try whose handler tuple contains its class, and every callee's raises clause is covered), True implies every key is the canonical 48-byte encoding of a non-identity subgroup point and the signature the canonical 96-byte encoding of a subgroup point, and at each of the five pairing call sites both arguments are proved valid and in the prime-order subgroup.",
         note="Over the contracts of the decoders (C11), subgroup_check (C17), hash_to_G2 (C10). The pairing itself is not executed here.",
         design_ref="DESIGN.md section 8 C04"),
     "C02": dict(level="proof", trusted=_COMMON_TRUST, assumptions=["A-PAIRING: the optimized ate pairing is bilinear and non-degenerate on G2 x G1 (assumed theorem; what is proved is that the suites call it only on valid subgroup points and how its values are combined)",
-                     "contract of hash_to_G2: a function of (message, tag) landing in the prime-order subgroup (C10 over A-ORDER)",
+                     "contract of hash_to_G2: a function of (message, tag) landing in the prime-order subgroup (C10; point counts forced by Hasse + computed facts, C17)",
                      "codec contracts (C11) and subgroup_check exactness (C17) are used at the call sites",
                      "A-PRIME: r prime"] + ["A-HASH for the cross-tag clause: H(m, DST1) != H(m, DST2) is a random-oracle fact; proved instead: each suite uses its own pinned tag and message encoding on both sides, and the four tags are pairwise different"],
         text="Verify/PopVerify are proved to return True iff key and signature are canonical subgroup encodings and dl(S) = dl(H(m', tag)) dl(P) mod r for this suite's (m', tag); Sign/PopProve/SkToPk are proved to output enc(sk . H(m', tag)) resp. enc(sk . G1); the property-level lemma (z3, L-CYCLIC from Lean) then gives Verify(SkToPk(sk), m, c) <=> c == Sign(sk, m) byte for byte.",
         note="Relative to A-PAIRING; exponent arithmetic is done by polyid in the field Z/r.",
         design_ref="DESIGN.md section 8 C02"),
     "C01": dict(level="proof", trusted=_COMMON_TRUST, assumptions=["A-PAIRING: the optimized ate pairing is bilinear and non-degenerate on G2 x G1 (assumed theorem; what is proved is that the suites call it only on valid subgroup points and how its values are combined)",
-                     "contract of hash_to_G2: a function of (message, tag) landing in the prime-order subgroup (C10 over A-ORDER)",
+                     "contract of hash_to_G2: a function of (message, tag) landing in the prime-order subgroup (C10; point counts forced by Hasse + computed facts, C17)",
                      "codec contracts (C11) and subgroup_check exactness (C17) are used at the call sites",
                      "A-PRIME: r prime"] + ["A-HASH: KeyGen's rejection loop terminates"],
         text="The => direction of the C02 lemma (honest signatures and possession proofs verify, all three suites); SkToPk/Sign/PopProve raise ValidationError exactly for non-integers and integers outside [1, r-1]; KeyGen returns a key in [1, r-1] (loop invariant, C16).",
         note="bool is a subclass of int (SkToPk(True) is sk = 1); 'non-integer' is read as 'not an instance of int'.",
         design_ref="DESIGN.md section 8 C01"),
     "C03": dict(level="proof", trusted=_COMMON_TRUST, assumptions=["A-PAIRING: the optimized ate pairing is bilinear and non-degenerate on G2 x G1 (assumed theorem; what is proved is that the suites call it only on valid subgroup points and how its values are combined)",
-                     "contract of hash_to_G2: a function of (message, tag) landing in the prime-order subgroup (C10 over A-ORDER)",
+                     "contract of hash_to_G2: a function of (message, tag) landing in the prime-order subgroup (C10; point counts forced by Hasse + computed facts, C17)",
                      "codec contracts (C11) and subgroup_check exactness (C17) are used at the call sites",
                      "A-PRIME: r prime"],
         text="Aggregate is proved (loop invariant over a list of symbolic length) to return the compressed fold of (+) over the decoded signatures and to raise exactly for an empty list or an entry that is not a 96-byte decodable string; the three AggregateVerify front ends and FastAggregateVerify are proved to return True iff the suite preconditions hold (>= 1 signer, as many keys as messages, every key valid, distinct messages in the basic suite) and dl(S) = sum_i dl(H(m'_i)) dl(P_i) mod r (pairing-product accumulator invariant, polyid in Z/r).",
@@ -120,9 +120,8 @@ PROPS = {
         note="Definitional proof over the contracts of the encoders and hash_to_G2.",
         design_ref="DESIGN.md section 8 C09"),
     "C10": dict(level="proof", trusted=_COMMON_TRUST, assumptions=[
-        "L-SQRT34 / Euler for sqrt_division_FQ (Lean Fields.lean): the candidate test succeeds iff u/v is a square; otherwise result^2 v = -u",
-        "L-SQRT8 for sqrt_division_FQ2 and the eta candidates (assumed; core steps Lean-checked in Roots.lean): needed for 'the SWU failure is unreachable'",
-        "A-ORDER, A-STRUCT-G1 (via C17): cofactor clearing lands in the prime-order subgroup",
+        "square-root helpers: sqrt_division_FQ / sqrt_division_FQ2 are proved from the source (units swu.sqrt_division_FQ.complete, swu.sqrt_division_FQ2.complete) to decide squareness exactly and to return r with r^2 v = u, resp. r^2 v = -u / r^2 v = u chk with chk^4 = -1; the number-theoretic inputs are Lean-checked (Euler's criterion, exponent bookkeeping) and the table facts T1-T3 are computed on the real constants (closed fact swu.G2.root-tables); the 'SWU failure' raise is then proved unreachable by executing the eta loop of the real code",
+        "Hasse's theorem + primality of r and of the 448-bit factor of h2 (via C17: cofactor clearing lands in the prime-order subgroup; point counts and the structure of the G1 cofactor part are computed facts)",
         "the RFC text is not available offline: A', B', Z, the isogeny tables and h_eff are pinned literals, tied to the RFC by the closed facts 'the isogeny maps E' into E' (polynomial identity, eval), 'g(B/(ZA)) is a square', 'Z non-square' and by the RFC vectors in tests/bls"],
         text="optimized_swu_G1/G2 are executed symbolically on every path (exceptional / regular x square / non-square x sign flip, and for G2 every candidate of the eta loop) over an abstract field with SYMBOLIC A', B', Z and eta table: the result is a finite point of E' whose x is the RFC's x1 resp. x2 = Z u^2 x1, with (y/z)^2 = g(x/z) and sgn0(y/z) = sgn0(u), and the 'SWU failure' raise is unreachable; the isogeny maps are proved to evaluate x_num/x_den, y*y_num/y_den for symbolic tables (Horner loops); map_to_curve and hash_to_G1/G2 are proved to be the RFC composition clear_cofactor(map(u0) + map(u1)) over hash_to_field (C15); sgn0 is proved against RFC 9380 4.1 (C14 unit).",
         note="Square-root completeness lemmas are assumptions; everything the code tests a posteriori is proved without them.",
@@ -140,11 +139,10 @@ PROPS = {
         note="bn128 optimized-vs-reference equality rests on A-PAIRING (bounded monitor).",
         design_ref="DESIGN.md section 8 C12"),
     "C17": dict(level="proof", trusted=_COMMON_TRUST, assumptions=[
-        "A-ORDER: #E(F_p) = h1 r (forced by Hasse + r prime, eval) and #E'(F_p2) = h2 r (assumed; Hasse-interval cross-check by eval)",
-        "A-STRUCT-G1: the cofactor part of E(F_p) has exponent dividing 1 - x (RFC 9380 section 8.8.1); needed only for 'clear_cofactor_G1 lands in the subgroup'",
-        "A-PRIME: r prime"],
+        "Hasse's theorem (|#E(F_q) - q - 1| <= 2 sqrt q; classical, not in Mathlib): with it #E(F_p) = h1 r and #E'(F_p2) = h2 r are FORCED by computed facts on the real code (bls.hasse-G1: r | #E and one multiple of r in the interval; bls.order-twist: a point of E'(F_p2) of order divisible by c r > 4p + 2, c the 448-bit prime factor of h2)",
+        "A-PRIME: r and the 448-bit factor c of h2 are prime (strong probable primes to 40 bases; no certificate)"],
         text="subgroup_check is proved (over the contracts of multiply and is_inf) to return True exactly when r.abs(P) = O for the pinned r, for any representative; cofactor clearing is proved to be multiplication by the pinned RFC 9380 effective cofactors; the cofactor constants are derived from the curve parameter x by eval. That r.(kG+T) = O iff T = O for cofactor-torsion T is Lean lemma subgroup_check_exact with gcd(h, r) = 1 by eval.",
-        note="'Maps every curve point into the subgroup' rests on the assumed point counts (A-ORDER; for E(F_p) forced by Hasse, eval) and, for G1, on A-STRUCT-G1. These are listed as assumptions, not counted as discharged.",
+        note="'Maps every curve point into the subgroup': the point counts are forced by Hasse's theorem plus computed facts; the structure of the G1 cofactor part (exponent |1 - x|, RFC 9380 section 8.8.1) is the computed fact bls.struct-G1 (two independent points of order l for each prime l | x - 1); Lean Cofactor.lean then gives r.(h_eff.P) = O.",
         design_ref="DESIGN.md section 8 C17"),
 }
 
